@@ -1255,7 +1255,7 @@ m("C17", "newlines-rewritten-in-xml", "zpt/template.py",
         return MacroProgram(''')
 m("C17", "utf16-be-row-wrong-codec", UT,
   "    (codecs.BOM_UTF16_BE, 'utf-16-be'),",
-  "    (codecs.BOM_UTF16_BE, 'utf-16-le'),", expect="silent")  # value-level
+  "    (codecs.BOM_UTF16_BE, 'utf-16-le'),")
 m("C17", "default-encoding-latin1", TP,
   '    default_encoding = "utf-8"', '    default_encoding = "latin-1"')
 m("C17", "str-xml-not-detected", TP,
